@@ -393,7 +393,7 @@ func (c *Ctx) instantiatedText(o *Obligation, hints []*Term) string {
 	if !any {
 		return ""
 	}
-	ic := &instCtx{grounds: map[string]*Term{}, bySort: map[string][]*Term{}, seenInst: map[string]bool{}, budget: 1500, arith: map[string][]*Term{}}
+	ic := &instCtx{grounds: map[string]*Term{}, bySort: map[string][]*Term{}, seenInst: map[string]bool{}, budget: 6000, arith: map[string][]*Term{}}
 	for _, h := range hints {
 		ic.addArith(h)
 	}
